@@ -252,6 +252,25 @@ def work_history(shard):
     return part
 
 
+def work_trap(shard):
+    """Every statement as the body of an ON ERROR handler, entered from a direct-mode error, from a
+    program-line error and from an event trap (GOSUB handler)."""
+    config, bodies = shard
+    part = Partial()
+    env = Env()
+    try:
+        for kw, body in bodies:
+            prog = [b'10 ON ERROR GOTO 100', b'20 END', b'30 ERROR 5', b'40 END',
+                    ('100 ' + body).encode('latin-1'), b'110 RESUME NEXT']
+            for seq in (['RUN', 'ERROR 5', 'PRINT ERR;ERL'], ['RUN', 'GOTO 30', 'CONT'], ['RUN', 'X=1/0:ERROR 6', 'LIST']):
+                case = {'config': config, 'mode': 'trap', 'lines': seq, 'program': [l.decode('latin-1') for l in prog]}
+                _exec(part, env, config, seq, kw, case, program=prog)
+        part.sample({'config': config, 'handler_body': bodies[0][1]})
+    finally:
+        env.close()
+    return part
+
+
 def _load_run_list(part, env, config, data, case, klass):
     s = env.session(config, horizon=60)
     try:
@@ -402,10 +421,18 @@ def legs(ctx):
     views = ['X=0', 'VIEW (100,100)-(200,150)', 'VIEW SCREEN (10,10)-(20,20),1,2', 'WINDOW (0,0)-(1,1)',
              'WINDOW SCREEN (-1,-1)-(1,1)', 'VIEW (100,100)-(200,150):WINDOW (0,0)-(1,1)', 'VIEW PRINT 2 TO 3']
     gpairs = [(sc + ':' + vw, st) for sc in screens for vw in views for st in gstm]
-    out.append(Leg('graphics', [(config, c) for config in CONFIGS for c in chunked(gpairs, 100)], work_history,
+    gconfigs = ('api',) if q else CONFIGS
+    if q:
+        views = views[:2] + views[3:4] + views[5:6]
+        gpairs = [(sc + ':' + vw, st) for sc in screens for vw in views for st in gstm]
+    out.append(Leg('graphics', [(config, c) for config in gconfigs for c in chunked(gpairs, 100)], work_history,
                    exhaustive=True,
                    bound='%d screens x %d VIEW/WINDOW contexts x %d graphics statement/function instantiations, '
-                         '2 configurations' % (len(screens), len(views), len(gstm))))
+                         '%d configuration(s)' % (len(screens), len(views), len(gstm), len(gconfigs))))
+    out.append(Leg('trap', [(config, c) for config in CONFIGS for c in chunked(benign, 40)], work_trap,
+                   exhaustive=True,
+                   bound='%d statements as ON ERROR handler body x 3 ways of entering the handler (direct-mode error, '
+                         'program-line error via GOTO, soft+hard error) x follow-up statement, 2 configurations' % len(benign)))
     # depth-2 histories
     firsts = STATE_CHANGERS_QUICK if q else STATE_CHANGERS
     pairs = [(f, b) for f in firsts for b in benign]
@@ -463,6 +490,9 @@ def replay(ctx, leg, case):
                 from pcbasic.basic.base import error
                 if not isinstance(e, error.Interrupt):
                     part.violation('host-exception/evaluate/%s' % H.exc_key(e), repr(e), case)
+        elif case.get('mode') == 'trap':
+            _exec(part, env, case['config'], case['lines'], 'replay', case,
+                  program=[l.encode('latin-1') for l in case['program']])
         else:
             _exec(part, env, case['config'], case['lines'], 'replay', case, program=BASE_PROGRAM)
     finally:
